@@ -22,6 +22,9 @@ EVAL_NAMES = ['number_test', 'spatial_test', 'magnitude_test', 'pseudolikelihood
               'resampled_magnitude_test', 'MLL_magnitude_test']
 
 
+MAIN_MS = 1000000000000 - 86400000 + 500      # origin time of the mainshock of the completeness filter: a fractional second
+
+
 class World:
     """Concrete realisation of the abstract forecast world: 2 cells x 2 magnitude bins."""
 
@@ -44,6 +47,12 @@ class World:
         mag = 4.2 + k + 0.1 * (e['u'] % 5)
         if not e['m']:
             mag = 3.1 + 0.1 * (e['u'] % 5)      # below the minimum magnitude; removed by 'magnitude >= 4.0'
+            if getattr(self, 'near_completeness', False):
+                # ... or only just below the completeness magnitude at the event's time (mainshock MAIN_MS, magnitude 8.5):
+                # 5e-7 below it, while half a second more or less since the mainshock moves the threshold by 2e-6
+                import math
+                days = (1000000000000 + 1000 * t - MAIN_MS) / 86400000.0
+                mag = 8.5 - 4.5 - 0.75 * math.log10(days) - 5e-7
         if not e['s']:
             lon = 5.5                           # outside the region; removed by the spatial filter
         return ('u%d' % e['u'], 1000000000000 + 1000 * t, lat, lon, 10.0, mag)
@@ -106,7 +115,8 @@ def build_forecast(world, conf, cats, path, ncat_given=True):
             import types
             kw['apply_mct'] = True
             kw['event'] = types.SimpleNamespace(magnitude=8.5, time=datetime.datetime(1970, 1, 1, tzinfo=datetime.timezone.utc) +
-                                                datetime.timedelta(milliseconds=1000000000000 - 86400000))
+                                                datetime.timedelta(milliseconds=MAIN_MS))
+            world.near_completeness = (real == 'mct')
     if conf['spat']:
         kw['filter_spatial'] = True
     if conf['filt'] or conf['spat']:
@@ -141,6 +151,7 @@ def build_forecast(world, conf, cats, path, ncat_given=True):
                     lst[-1].filter(list(kw['filters']), in_place=False)
         if ncat_given:
             kw['n_cat'] = len(lst)
+        world.near_completeness = False
         return CatalogForecast(catalogs=lst, region=region, name='f', **kw)
     lines = []
     for i, cat in enumerate(cats):
@@ -151,6 +162,7 @@ def build_forecast(world, conf, cats, path, ncat_given=True):
             lines.append(world.csv_line(world.event_tuple(e, t), i))
     with open(path, 'w', newline='') as f:
         f.write('\n'.join(lines) + '\n')
+    world.near_completeness = False
     return csep.load_catalog_forecast(path, region=region, store=(conf['src'] == 'store'), name='f', **kw)
 
 
